@@ -655,14 +655,42 @@ def _match(P, ctx, queue, r, call, e, addr, cap, endmark=False, drop=None):
                 if not _lost_at(ctx, s, drop, e["seq"]):
                     P.unexplained_dgram_loss += 1
     else:
+        # an empty payload carries no identity: it is the first outstanding datagram (per source, in
+        # order) that can arrive empty in this capacity; datagrams before it went with a dropped
+        # multishot stream (allowed for datagrams). Without such a datagram the oldest outstanding one
+        # is taken and its length is judged.
         src = r.get("src") if isinstance(r, dict) else None
-        byaddr = [s for s in heads.values() if src and addr.get(s["src"]) == src]
-        zero = [s for s in heads.values() if min(s["n"], cap) == 0]
-        pool = byaddr or zero or list(heads.values())
-        if not pool:
-            P.add("contract", {"site": "dgram", "kind": "unknown", "op": op}, "%s returned an (empty) datagram but nothing is outstanding" % op, e["seq"])
-            return
-        cand = sorted(pool, key=lambda s: s["seq"])[0]
+        by_src = {}
+        for s in queue:
+            if not s["m"] and not s["skip"]:
+                by_src.setdefault(s["src"], []).append(s)
+        if src:
+            named = {k: v for k, v in by_src.items() if addr.get(k) == src}
+            by_src = named or by_src
+        best = None
+        # (polling driver, items with their own length: the payload is reported empty whatever was
+        # received - recorded deviation - so the item is simply the oldest datagram of its source)
+        own_len_lost = ctx["drv"] == "poll" and op in ("fmulti", "mmulti")
+        for lst in by_src.values():
+            for i, s in enumerate(lst):
+                if min(s["n"], cap) == 0 or own_len_lost:
+                    if best is None or (i, s["seq"]) < (best[0], best[1]["seq"]):
+                        best = (i, s, lst)
+                    break
+        if best is not None:
+            i, cand, lst = best
+            for s in lst[:i]:
+                s["skip"] = True
+                if not _lost_at(ctx, s, drop, e["seq"]):
+                    P.unexplained_dgram_loss += 1
+        else:
+            pool = list(heads.values())
+            if src:
+                pool = [s for s in pool if addr.get(s["src"]) == src] or pool
+            if not pool:
+                P.add("contract", {"site": "dgram", "kind": "unknown", "op": op}, "%s returned an (empty) datagram but nothing is outstanding" % op, e["seq"])
+                return
+            cand = sorted(pool, key=lambda s: s["seq"])[0]
     cand["m"] = True
     n = cand["n"]
     poll_multi = ctx["drv"] == "poll" and op in ("fmulti", "mmulti")
@@ -911,9 +939,16 @@ NOT_IN = {
 }
 
 
-def _tlc(module, cfg, **kw):
+# many short TLC runs: the serial collector and the C1 compiler only cost far less CPU than the defaults
+# (measured 2.5x on a loaded machine); the big thorough configurations keep the optimising compiler
+LIGHT_JVM = ["-XX:-UseParallelGC", "-XX:+UseSerialGC", "-XX:TieredStopAtLevel=1"]
+
+
+def _tlc(module, cfg, light=True, **kw):
     """vlib.tlc, retried when the JVM could not unpack its standard modules (shared /tmp)"""
     r = None
+    if light:
+        kw["jvm"] = (kw.get("jvm") or []) + LIGHT_JVM
     for _ in range(3):
         r = vlib.tlc(module, cfg, **kw)
         if r.error and ("Parsing or semantic analysis failed" in r.error or "FileNotFoundException" in r.out):
@@ -922,15 +957,24 @@ def _tlc(module, cfg, **kw):
     return r
 
 
+def _validate_trace(path, timeout=1500):
+    """as vlib.validate_trace (TRACE environment, one worker, deque state queue, deep stack) with the
+    light JVM settings and the retry of _tlc"""
+    env = {"TRACE": os.path.abspath(path), "JAVA_TOOL_OPTIONS": "-Xss1g -Dtlc2.tool.queue.IStateQueue=StateDeque"}
+    r = _tlc("Trace_Socket", "Trace_Socket.cfg", workers=1, timeout=timeout, coverage=False, env=env, jvm=["-Xmx4g"], marker="TRACE")
+    return ("TRACE_ACCEPTED" in r.out) and r.violated is None and r.error is None, r
+
+
 def model_checking(run, tier):
     cfgs = MC_QUICK if tier == "quick" else MC_THOROUGH
 
     def go(item):
         cfg, expect = item
         live = "live" in cfg
-        return item, _tlc("Socket", cfg, timeout=1500, workers=1, coverage=(expect is None and not live))
+        return item, _tlc("Socket", cfg, light=("thorough" not in cfg), timeout=1500, workers=1,
+                          coverage=(expect is None and not live))
 
-    with ThreadPoolExecutor(4) as ex:
+    with ThreadPoolExecutor(3) as ex:      # + the generator running next to it: at most 4 TLC workers
         results = list(ex.map(go, cfgs))
     for (cfg, expect), r in results:
         name = "Socket/" + cfg
@@ -955,16 +999,21 @@ def model_checking(run, tier):
 
 def generate(run, tier, tmp):
     """programs from Gen_Socket (simulation seeded by VERIF_SEED; a fixed seed gives the same programs)"""
-    n_stream, n_dgram = (90, 50) if tier == "quick" else (1600, 900)
+    n_stream, n_dgram = (90, 50) if tier == "quick" else (1000, 600)
     progs = []
-    for cfg, n in (("Gen_Socket_stream.cfg", n_stream), ("Gen_Socket_dgram.cfg", n_dgram)):
+
+    def gen(item):
+        cfg, n = item
         got = []
         g = _tlc("Gen_Socket", cfg, timeout=1500, simulate=n, depth=40, coverage=False, sink=got.append)
         if g.error or g.violated:
             raise vlib.ToolError("Gen_Socket/%s: %s %s\n%s" % (cfg, g.error, g.violated, g.out[-2000:]))
         if len(got) < n:
             raise vlib.ToolError("Gen_Socket/%s printed %d of %d programs" % (cfg, len(got), n))
-        progs += got
+        return got
+
+    for item in (("Gen_Socket_stream.cfg", n_stream), ("Gen_Socket_dgram.cfg", n_dgram)):
+        progs += gen(item)
     path = os.path.join(tmp, "programs.jsonl")
     kinds = {}
     with open(path, "w") as f:
@@ -1051,12 +1100,7 @@ def validate(tmp, name, judged):
             for n, j in enumerate(todo):
                 for r in j["records"]:
                     f.write(json.dumps(dict(r, slot=n)) + "\n")
-        ok, r = None, None
-        for _ in range(3):
-            ok, r = vlib.validate_trace("Trace_Socket", "Trace_Socket.cfg", path, timeout=1500)
-            if r.error and ("Parsing or semantic analysis failed" in r.error or "FileNotFoundException" in r.out):
-                continue
-            break
+        ok, r = _validate_trace(path)
         states += r.distinct
         if r.error:
             raise vlib.ToolError("Trace_Socket on %s: %s\n%s" % (name, r.error, r.out[-3000:]))
@@ -1135,12 +1179,7 @@ def negative_control(run, tmp, judged_by_combo):
 
     def go(job):
         tr, path = job
-        ok, r = None, None
-        for _ in range(3):
-            ok, r = vlib.validate_trace("Trace_Socket", "Trace_Socket.cfg", path, timeout=600)
-            if r.error and ("Parsing or semantic analysis failed" in r.error or "FileNotFoundException" in r.out):
-                continue
-            break
+        ok, r = _validate_trace(path, timeout=600)
         return tr, ok, r
 
     with ThreadPoolExecutor(2) as ex:
@@ -1171,17 +1210,19 @@ def run(run, tier, replay):
             return
         import time
         t0 = time.time()
-        # 1. model checking
-        model_checking(run, tier)
-        vlib.log("C14: model checking done (%.0fs)" % (time.time() - t0))
-        # 2. programs
-        ppath, programs = generate(run, tier, tmp)
-        vlib.log("C14: %d programs generated (%.0fs)" % (len(programs), time.time() - t0))
+        # 1.-3. model checking, program generation and the harness build do not depend on each other
+        with ThreadPoolExecutor(3) as ex:
+            f_mc = ex.submit(model_checking, run, tier)
+            f_gen = ex.submit(generate, run, tier, tmp)
+            f_build = ex.submit(vlib.cargo_build, "hnet", ["record_socket"])
+            ppath, programs = f_gen.result()
+            vlib.log("C14: %d programs generated (%.0fs)" % (len(programs), time.time() - t0))
+            f_build.result()
+            vlib.log("C14: harness built (%.0fs)" % (time.time() - t0))
+            f_mc.result()
+            vlib.log("C14: model checking done (%.0fs)" % (time.time() - t0))
         for p in list(programs.values())[:2]:
             run.sample(p, limit=2)
-        # 3. record on real sockets
-        vlib.cargo_build("hnet", ["record_socket"])
-        vlib.log("C14: harness built (%.0fs)" % (time.time() - t0))
         outdir, summ, problems = record(tmp, ppath)
         vlib.log("C14: programs recorded on real sockets (%.0fs)" % (time.time() - t0))
         per_combo = summ.get("combos", {})
